@@ -551,6 +551,7 @@ pub struct RunStats {
     pub livelock: u64,
     pub script_removals: u64,
     pub hand_driven_parser: u64,
+    pub fresh_queues: u64,
 }
 
 pub struct RunObs {
@@ -768,6 +769,11 @@ pub fn drive<D: Driven>(
                     }
                     if !probe.queue.is_empty() && queue_nonempty.is_none() {
                         queue_nonempty = Some(probe.unread_text());
+                    }
+                    if sched.fresh_queue {
+                        // F15: the next chunk comes in a queue of its own
+                        while probe.queue.pop_front().is_some() {}
+                        stats.fresh_queues += 1;
                     }
                     break;
                 },
